@@ -124,8 +124,8 @@ Print Assumptions C14_tree_iter_is_naive_folding_padded.
 
 (* the second iterator, FoldedPolynomialStreamIter (it reads two coefficients at a time whenever the top of its stack is not a
    level-0 entry and yields only the items of the last level): on a stream of complete blocks, for every depth >= 1, it yields
-   exactly the last naive folding - the level-depth items of the tree iterator.  Partial: lengths needing zero padding stay with
-   the correspondence for this iterator *)
+   exactly the last naive folding - the level-depth items of the tree iterator.  (Partial: complete blocks only; the theorem
+   C14_stream_iter_is_fold_stream below covers every length.) *)
 From PC Require Import Proofs.StreamIterS.
 Theorem C14_stream_iter_is_last_folding_partial :
   forall (FO : FieldOps) (FL : FieldLaws FO) chs,
@@ -134,3 +134,14 @@ Theorem C14_stream_iter_is_last_folding_partial :
     stream_iter chs (concat bs) = by_level (length chs) (tree_iter chs (concat bs)).
 Proof. exact @stream_iter_is_last_folding. Qed.
 Print Assumptions C14_stream_iter_is_last_folding_partial.
+
+(* ... and for EVERY stream length, every depth >= 1 and every challenge list the stream iterator yields exactly the model's naive
+   definition: the last of the successive foldings of the zero-padded stream.  (With an even padding the pre-seeded stack is what
+   reading the padding two coefficients at a time leaves; with an odd padding the level-0 zero on top makes the iterator read the
+   first coefficient alone and merge it with that zero - the same item a double read yields.) *)
+From PC Require Import Proofs.StreamIterSPad.
+Theorem C14_stream_iter_is_fold_stream :
+  forall (FO : FieldOps) (FL : FieldLaws FO) chs,
+    (1 <= length chs)%nat -> forall coeffs, stream_iter chs coeffs = fold_stream chs coeffs.
+Proof. exact @stream_iter_is_fold_stream. Qed.
+Print Assumptions C14_stream_iter_is_fold_stream.
